@@ -53,6 +53,12 @@ where
         }
     }
 
+    /// Removes all nodes.
+    pub(crate) fn clear(&mut self) {
+        self.indices.clear();
+        self.nodes.clear();
+    }
+
     pub(crate) fn lookup(&self, goal: &K) -> Option<DepthFirstNumber> {
         self.indices.get(goal).cloned()
     }
